@@ -97,7 +97,10 @@ def gen_plan(seed, index, tier):
                     method=rng.choice(["predict_proba", "decision_function", "predict"]))
         scores = sorted({r[0] for r in rows})
         nq = rng.randint(2, 12)
-        plan["xq"] = [[rng.choice(scores + [round(rng.random(), 3), -1e9, 1e9, 0.0, 1.0]), rng.randrange(m)] for _ in range(nq)]
+        # query scores: training scores, fresh values, very large finite values and +-infinity
+        # (a log-odds decision_function is infinite at p in {0, 1}; JSON carries them as strings)
+        plan["xq"] = [[rng.choice(scores + [round(rng.random(), 3), -1e9, 1e9, 0.0, 1.0, "inf", "-inf"]), rng.randrange(m)]
+                      for _ in range(nq)]
     # history: the same estimator object was fitted on other data and asked for predictions before
     plan["prior"] = None
     if index >= 30 and rng.random() < 0.25:
@@ -114,7 +117,7 @@ def gen_plan(seed, index, tier):
             plan["prior"] = {"rows": pr, "max_iter": rng.choice([2, 4, 7]), "seed": rng.randint(0, 2**31 - 1)}
     nops = rng.randint(4, 10)
     ops = []
-    int_seed = rng.randint(0, 2**31 - 1)
+    int_seed = rng.choice([0, 1, 2**32 - 1]) if rng.random() < 0.15 else rng.randint(0, 2**31 - 1)
     for _ in range(nops):
         k = rng.choice(OPS)
         if k == "const":
@@ -183,7 +186,7 @@ def _fit_model(plan, ctx):
     est = ThresholdOptimizer(estimator=stub, constraints=plan["constraints"], objective=plan["objective"],
                              grid_size=plan["grid_size"], flip=plan["flip"], prefit=plan["prefit"],
                              predict_method=("auto" if plan["method"] != "predict" else "predict"))
-    Xq = pd.DataFrame({"score": [float(q[0]) for q in plan["xq"]]})
+    Xq = pd.DataFrame({"score": [float(q[0]) for q in plan["xq"]]})  # float("inf") / float("-inf") for the string forms
     kwq = {"sensitive_features": np.array([f"g{q[1]}" for q in plan["xq"]])}
     if not plan["prefit"]:
         _prior_history(plan, ctx, est, Xq, kwq, int, xname="score")
@@ -250,7 +253,8 @@ def execute(plan, ctx):
         return
     if not regression:
         pmf = np.asarray(pmf, dtype=float)
-        if pmf.shape != (nq, 2) or (pmf < -1e-12).any() or (pmf > 1 + 1e-12).any() or np.abs(pmf.sum(axis=1) - 1).max() > 1e-12:
+        if pmf.shape != (nq, 2) or not np.isfinite(pmf).all() or (pmf < -1e-12).any() or (pmf > 1 + 1e-12).any() \
+                or np.abs(pmf.sum(axis=1) - 1).max() > 1e-12:
             ctx.fail("C10.pmf_invalid", f"pmf rows are not distributions: {pmf.tolist()[:4]}")
             return
         p = pmf[:, 1].copy()
@@ -260,6 +264,16 @@ def execute(plan, ctx):
                          f"max|d|={np.abs(p - p_ref).max():.3e} (weights_.index={list(w.index)})")
         else:
             _check_thresholder_pmf(ctx, plan, est, p, kw)
+            # "depends only on the row's score and group": not on the other rows of the batch or their order
+            if nq >= 2:
+                perm = list(range(nq))[::-1]
+                half = perm[: max(1, nq // 2)]
+                for sel, name in ((perm, "reversed"), (half, "sub-batch")):
+                    kw2 = {"sensitive_features": kw["sensitive_features"][sel]}
+                    ok3, pmf3, _ = _pmf(ctx, est, Xq.iloc[sel].reset_index(drop=True), kw2)
+                    if not ok3 or np.abs(np.asarray(pmf3, dtype=float)[:, 1] - p[sel]).max() > 1e-12:
+                        ctx.fail("C10.pmf_batch_dependent", f"the probability of a row changes when the query batch is {name}")
+                        break
         sig["p01"] = bool(((p == 0) | (p == 1)).any())
         if sig["p01"]:
             ctx.probe("rows_with_p_in_{0,1}")
